@@ -45,6 +45,9 @@ func runParserProp(pp *pProp, tier string) int {
 	sc := newScratch(strings.ToLower(pp.id))
 	_, pigeon := buildPigeon(sc)
 	rep := newReporter(pp.id)
+	if pp.race {
+		rep.tag = "-race"
+	}
 	env := goEnv()
 	if pp.race {
 		env = append(env, "GORACE=halt_on_error=1 exitcode=66")
